@@ -16,6 +16,7 @@ func usage() {
 	fmt.Fprintln(os.Stderr, `usage:
   mlbcheck check <Cxx> [--tier quick|thorough] [--overlay file.json] [--repo dir]
   mlbcheck selftest <Cxx>|all [--jobs n]
+  mlbcheck sweep [--repo dir]
   mlbcheck list
   mlbcheck explain <violation.json>`)
 	os.Exit(2)
@@ -48,6 +49,11 @@ func main() {
 		jobs := fs.Int("jobs", 8, "parallel mutant runs")
 		fs.Parse(os.Args[3:])
 		os.Exit(rules.SelfTest(os.Args[2], *jobs, true))
+	case "sweep":
+		fs := flag.NewFlagSet("sweep", flag.ExitOnError)
+		repo := fs.String("repo", "", "repository root (default /repo)")
+		fs.Parse(os.Args[2:])
+		os.Exit(rules.Sweep(*repo))
 	case "list":
 		ids := rules.IDs()
 		sort.Strings(ids)
